@@ -188,6 +188,10 @@ class trellis_create:
 
     @staticmethod
     def assume_post(self, node_type, creator, label, result, kwargs=None):
+        """Effect of Trellis.create on the abstract declaration view: the created (or re-created) node is attached with the
+        given creator and the role of the requested state; nothing else changes in the view except that products of a
+        re-created node become detached (stated per class of node in the frame; proved for the tables in C09, assumed
+        for the view)."""
         c = sym.cur()
         db = db_of(self)
         c.event("create", node_type=result._cls, creator=creator, label=label, node=result, kwargs=kwargs or {})
